@@ -250,11 +250,17 @@ class NumpyShim:
     NPY_INT64 = 'i8'
     NPY_INT = 'i8'
 
+    @staticmethod
+    def _dims(nd, dims):
+        if isinstance(dims, int):
+            return (dims,)
+        return tuple(int(d) for d in list(dims)[:nd])
+
     def PyArray_SimpleNew(self, nd, dims, typ):
-        return self.zeros(tuple(int(d) for d in list(dims)[:nd]), dtype=typ)
+        return self.zeros(self._dims(nd, dims), dtype=typ)
 
     def PyArray_ZEROS(self, nd, dims, typ, fortran=0):
-        return self.zeros(tuple(int(d) for d in list(dims)[:nd]), dtype=typ)
+        return self.zeros(self._dims(nd, dims), dtype=typ)
 
     def PyArray_EMPTY(self, nd, dims, typ, fortran=0):
-        return self.zeros(tuple(int(d) for d in list(dims)[:nd]), dtype=typ)
+        return self.zeros(self._dims(nd, dims), dtype=typ)
